@@ -99,6 +99,9 @@ def run(ck, fb, fbd):
         if "/verif/fixtures/" in f.file:
             continue
         ck.violate("C20.create", f.loc(n), "%s (reachable from a read-only entry point) calls %s, which registers a new property storage in the mesh" % (f.pq.split("OpenVolumeMesh::")[-1][:70], tgt.name), key, detail={"chain": chain(fid)})
+    # the rule is only alive while the creating API is recognised at all
+    n_api = len({g.where for g in fb.fns.values() if g.has_cfg and g.cls == RM and creating_api(g.name) and g.name != "storage_tracker"})
+    ck.floor("property_creating_api_functions", n_api, 10)
     ck.analysed["property_creating_calls_reached"] = len(seen_c)
     if not seen_c:
         ck.ok("C20.create", "const entry points", "no read-only entry point reaches a property-creating call (%d functions searched)" % len(pred))
